@@ -55,6 +55,9 @@ def configs(tier):
                         continue
                     ext(g, vector, 3, timeinfo, [p])
         ext(big[0], False, 3, "none", ["time_interval"])
+        for p in temporal:
+            ext(big[1], False, 3, "dates_and_times", [p])
+        ext(tiny[0], False, 3, "dates_and_times", ["time_interval", "time_slice"])
         ext(big[0], True, 0, "none", ["sub_coords"])
         # two-step programs on the smallest grids
         for g in tiny:
@@ -88,6 +91,9 @@ def configs(tier):
                     if p[0] in spatial and p[1] in spatial:
                         continue
                     ext(g, vector, 3, timeinfo, p)
+        for g in (big[1], tiny[0]):
+            for p in two_series:
+                ext(g, False, 3, "dates_and_times", p)
         # every 8th three-step program on 2x2, four 4-step programs with two temporal steps on 2x2
         three = [list(p) for p in itertools.product(STEPS, repeat=3) if not any(p[i] == "time_slice" and p[j] in temporal for i in range(3) for j in range(i + 1, 3))]
         for p in three[::8]:
@@ -127,6 +133,12 @@ def _mk_root(darsia, cfg):
             times = [S.real(f"t{i}", lo=-1000, hi=1000) for i in range(T)]
             kw["time"] = list(times)
             dates = [None] * T
+        elif cfg["timeinfo"] == "dates_and_times":
+            # both given, and the relative times are NOT what the dates imply (e.g. hours, or an offset)
+            dates = [BASE + timedelta(hours=3 * i + i * i) for i in range(T)]
+            times = [S.real(f"t{i}", lo=-1000, hi=1000) for i in range(T)]
+            kw["date"] = list(dates)
+            kw["time"] = list(times)
         else:
             dates = [None] * T
             times = [None] * T
@@ -208,6 +220,8 @@ def _spatial_step(darsia, cfg, cur, st, kind, k, root, dims):
         if kind == "sub_voxels":
             roi = darsia.VoxelArray([list(p), list(q)] if S.instrumented() else np.array([p, q]))
             new = cur.subregion(roi)
+            # the region of interest belongs to the caller (it may be applied to another image next)
+            S.claim(f"step{k}:voxel_roi_of_the_caller_is_left_as_it_was", S.and_(S.eq(list(np.asarray(roi)[0]), p), S.eq(list(np.asarray(roi)[1]), q)))
         else:
             # physical corner points strictly inside the corner voxels p and q
             tp = [S.real(f"s{k}_tp{m}", lo="1/1000", hi="999/1000") for m in range(dim)]
@@ -217,6 +231,7 @@ def _spatial_step(darsia, cfg, cur, st, kind, k, root, dims):
             cq = cs.coordinate(np.array([q[m] + tq[m] for m in range(dim)], dtype=object if S.instrumented() else float))
             roi = darsia.make_coordinate([list(cp), list(cq)])
             new = cur.subregion(roi)
+            S.claim(f"step{k}:coordinate_roi_of_the_caller_is_left_as_it_was", S.and_(S.eq(list(np.asarray(roi)[0]), list(cp)), S.eq(list(np.asarray(roi)[1]), list(cq))))
             # the physical box selects what the voxel box of the converted corners selects
             vox = cs.voxel(roi)
             twin = cur.subregion(darsia.make_voxel(np.asarray(vox)))
